@@ -1,6 +1,7 @@
 """Gin harness: drives the real GinRummyGameState / GinRickyGameState, independent Python renderings of the specs
 (legal melds, optimal deadwood, lay-off closure, ricky value), injected shuffles."""
 import collections, copy, itertools, random
+from . import core
 
 SU = "cdhs"
 RANKS = "23456789TJQKA"
@@ -107,6 +108,7 @@ def apply_op(g, op):
     install_shuffle(g._cv_fake)
     k = op["k"]
     try:
+      with core.time_limit(5.0):
         if k == "pass":
             g.first_turn_pass()
         elif k == "draw":
@@ -117,7 +119,7 @@ def apply_op(g, op):
             g.decide_knock(bool(op["knocks"]), [list(m) for m in op["melds"]] if op.get("melds") is not None else None)
         else:
             raise RuntimeError("bad op")
-        return "ok", ""
+      return "ok", ""
     except Exception as e:
         return "rej", f"{type(e).__name__}: {str(e)[:100]}"
 
